@@ -17,6 +17,7 @@ package s2
 import (
 	"bufio"
 	"encoding/binary"
+	"errors"
 	"io"
 	"math"
 )
@@ -194,6 +195,19 @@ func (d *decoder) readUint64() (x uint64) {
 	d.err = binary.Read(d.r, binary.LittleEndian, &x)
 	return
 }
+
+// readPointCoord reads a float64 that is a coordinate of a point. NaN and
+// infinite values are rejected: the exact predicates that geometry queries fall
+// back on cannot represent them (big.Float panics on NaN).
+func (d *decoder) readPointCoord() float64 {
+	x := d.readFloat64()
+	if d.err == nil && (math.IsNaN(x) || math.IsInf(x, 0)) {
+		d.err = errNonFiniteCoordinate
+	}
+	return x
+}
+
+var errNonFiniteCoordinate = errors.New("s2: point coordinate is NaN or infinite")
 
 func (d *decoder) readFloat64() float64 {
 	if d.err != nil {
